@@ -1,6 +1,6 @@
 (* Properties/C02.v — gradual difficulty equals difficulty of the played prefix. *)
 From Coq Require Import ZArith List Bool.
-From V Require Import F64 Gradual GradualProofs.
+From V Require Import F64 Gradual GradualProofs TaikoProofs.
 Import ListNotations.
 Open Scope Z_scope.
 
@@ -66,19 +66,20 @@ Theorem C02_final_is_full_mania : forall (S : Type) (process : S -> Z -> S) (s0 
 Proof. exact mania_oneshot_cap. Qed.
 Print Assumptions C02_final_is_full_mania.
 
-(* taiko: the pinned code violates the property on three classes of maps (known finding
-   F6); witnesses computed on the model and replayed on the implementation by the check.
-   The statement for maps outside these classes is not proved yet: C02_taiko_partial. *)
-Theorem C02_taiko_first_not_hit_refuted :
-  exists flags ops, taiko_run flags ops <> taiko_spec flags ops.
-Proof. exact taiko_first_not_hit_refuted. Qed.
-Print Assumptions C02_taiko_first_not_hit_refuted.
+(* taiko (after the fix 8d6162b): for every flag list (which objects are hits), every skill oracle
+   and every op sequence the calculator equals the plain iterator over one-shot(1..hits);
+   passed_objects counts hits *)
+Theorem C02_taiko : forall (S : Type) (process : S -> Z -> S) (s0 : S) (flags : list bool),
+  zlen flags < 18446744073709551616 -> forall ops : list gop, Forall nth_ok ops ->
+  run_gops (taiko_next S process flags) (taiko_nth S process flags) (taiko_len S flags) (fun v => v) ops
+           (taiko_new S s0)
+  = spec_gops (oneshots (taiko_oneshot S process s0 flags) (taiko_total_hits flags)) ops.
+Proof. exact taiko_gradual_refines. Qed.
+Print Assumptions C02_taiko.
 
-Theorem C02_taiko_short_map_refuted :
-  exists flags ops, (length flags < 3)%nat /\ taiko_run flags ops <> taiko_spec flags ops.
-Proof. exact taiko_short_map_refuted. Qed.
-Print Assumptions C02_taiko_short_map_refuted.
-
+(* taiko, known finding F6c: on a map that ends in non-hit objects (spinner / drum roll after the
+   last hit) the final value — one-shot with all hits passed — differs from the unlimited
+   calculation, which also processes the trailing objects *)
 Theorem C02_taiko_trailing_refuted :
   exists flags,
     let full := taiko_oneshot (list Z) trace_process [] flags USIZE_MAX in
@@ -87,10 +88,9 @@ Theorem C02_taiko_trailing_refuted :
 Proof. exact taiko_trailing_refuted. Qed.
 Print Assumptions C02_taiko_trailing_refuted.
 
-(* taiko, partial: the one-shot side counts min(take, hits) *)
-Theorem C02_taiko_partial : forall (S : Type) (process : S -> Z -> S) (s0 : S)
-    (flags : list bool) (take : Z),
-  0 <= take ->
+(* the one-shot side counts min(take, hits) *)
+Theorem C02_taiko_combo : forall (S : Type) (process : S -> Z -> S) (s0 : S)
+    (flags : list bool) (take : Z), 0 <= take ->
   fst (taiko_oneshot S process s0 flags take) = Z.min take (taiko_total_hits flags).
 Proof. exact taiko_oneshot_combo. Qed.
-Print Assumptions C02_taiko_partial.
+Print Assumptions C02_taiko_combo.
